@@ -11,8 +11,9 @@ Layer 1 cases (phase `prim`; `stack=tlcp|dtlcp`, byte strings in hex, `-` = empt
   op=master suite pre cr sr                      => out
   op=keys   suite master cr sr                   => cmac smac ckey skey civ siv
   op=fin    suite master transcript              => client server
-  op=enc    suite key iv mac epoch seq typ ver payload rand      => rec | panic
-  op=write  suite key iv mac epoch seq typ payload rand maxp     => wire nepoch nseq | panic
+  op=enc    suite key iv mac epoch seq typ ver payload rand rchunk  => rec | panic
+  op=write  suite key iv mac epoch seq typ payload rand maxp rchunk => wire nepoch nseq | panic
+            (rand = the bytes the random source hands out, at most rchunk per Read when rchunk > 0)
   op=dec    suite key iv mac seq rec             => out=ok:<typ>:<hex> | out=alert:<n>
 Layer 2 cases (phase `hs`) are judged by `Oracle.C04HS`.
 -/
@@ -272,7 +273,11 @@ def judgePrim (ct ot : List String) : Option Verdict := do
         | some (p, []) =>
           match specRecord m sk sst typ ver epoch seq payload p rec with
           | .error e => (some e, "")
-          | .ok (_, note) => (none, note)
+          | .ok (ex, note) =>
+            -- the driver controls the random source: a CBC explicit IV must be the bytes it produced
+            if m == .cbc && ex != rand.take 16 then
+              (some ("iv-not-rng", s!"explicit IV {hex ex} is not the 16 bytes the random source produced ({hex (rand.take 16)}); first stale byte at {firstDiff ex (rand.take 16)}"), "")
+            else (none, note)
         | _ => (some ("record-header", "output does not parse as exactly one record"), "")
       | none, _ => (some ("record-open", s!"suite {id} is not a GB/T 38636 SM2 suite"), "")
       | _, none => (if (kv ot "panic").isSome && mst == .tlcp && seq + 1 ≥ 2^64 then none
@@ -302,7 +307,13 @@ def judgePrim (ct ot : List String) : Option Verdict := do
           | some ns, some ne =>
             if ns != seq + seen.length || ne != epoch then
               (some ("seq-state", s!"after {seen.length} records the counters are epoch {ne} seq {ns}, expected {epoch}/{seq + seen.length}"), "")
-            else (none, note)
+            else
+              let ivs := seen.reverse
+              let want := (chunks16 rand).take ivs.length
+              if m == .cbc && ivs != want then
+                let i := ((List.range ivs.length).find? (fun i => ivs.getD i [] != want.getD i [])).getD 0
+                (some ("iv-not-rng", s!"explicit IV of record {i} ({hex (ivs.getD i [])}) is not the 16 bytes the random source produced for it ({hex (want.getD i [])})"), "")
+              else (none, note)
           | _, _ => (some ("shape", "missing nseq/nepoch"), "")
       | none, _ => (some ("record-open", s!"suite {id} is not a GB/T 38636 SM2 suite"), "")
       | _, none => (some ("shape", "no wire="), "")
